@@ -385,6 +385,20 @@ func (u *Unit) callModifies(common *ssa.CallCommon, ms *modSet) {
 	}
 	ms.allocates = true
 	c, callee, _ := u.calleeContract(common)
+	if c == nil && callee == nil && !common.IsInvoke() {
+		// call through a function value: the union over the possible targets
+		cands := u.eng.funcCandidates(common.Signature())
+		allPure := len(cands) > 0
+		for _, f := range cands {
+			fc := u.eng.contractFor(f)
+			if fc == nil || !fc.Pure || len(f.FreeVars) > 0 {
+				allPure = false
+			}
+		}
+		if allPure {
+			return
+		}
+	}
 	if c == nil {
 		ms.all = true
 		return
